@@ -188,7 +188,69 @@ def _fm_unsat(cons, limit=FM_LIMIT):
     return r
 
 
+def _subst_equalities(cur):
+    """Gaussian pre-pass: an equality  sum a_i x_i + c == 0  (both l <= 0 and -l <= 0 present) with a unit
+    coefficient on some x is used to eliminate x everywhere (exact over the integers); afterwards every
+    constraint is re-normalised, so parity information (x == 2q+1) turns into integer tightening."""
+    for _ in range(12):
+        eq = None
+        for k, c in cur.items():
+            nk = tuple((s, -v) for s, v in k)
+            if cur.get(nk) == -c:
+                for s, v in k:
+                    if v == 1 or v == -1:
+                        eq = (k, c, s, v)
+                        break
+            if eq:
+                break
+        if not eq:
+            return cur
+        k, c, x, a = eq
+        # x = -(1/a) * (rest + c)  with a = +-1  ->  x = -a*(rest + c)
+        rest = {s: v for s, v in k if s != x}
+        new = {}
+        for k2, c2 in cur.items():
+            co = 0
+            for s, v in k2:
+                if s == x:
+                    co = v
+                    break
+            if co == 0:
+                t = dict(k2)
+                cc = c2
+            else:
+                t = {s: v for s, v in k2 if s != x}
+                f = -a * co
+                for s, v in rest.items():
+                    nv = t.get(s, 0) + f * v
+                    if nv:
+                        t[s] = nv
+                    elif s in t:
+                        del t[s]
+                cc = c2 + f * c
+            if not t:
+                if cc > 0:
+                    return None
+                continue
+            g = 0
+            for v in t.values():
+                g = gcd(g, v)
+            if g > 1:
+                cc = -((-cc) // g)
+                kk = tuple(sorted((s, v // g) for s, v in t.items()))
+            else:
+                kk = tuple(sorted(t.items()))
+            o = new.get(kk)
+            if o is None or o < cc:
+                new[kk] = cc
+        cur = new
+    return cur
+
+
 def _fm_core(cur, limit):
+    cur = _subst_equalities(cur)
+    if cur is None:
+        return True
     while True:
         if not cur:
             return False
